@@ -22,7 +22,7 @@ MUTANTS = [
     ("c17_maxreach_skip_anc", "flowpaths/stdigraph.py",
      "            result[(u, v)] = max(edge_weight[(u, v)], max_desc[cv], max_anc[cu])", "            result[(u, v)] = max(edge_weight[(u, v)], max_desc[cv], max_anc[cu] if cu != cv else 0.0)", ["C17"]),
     ("c17_antichain_visited", "flowpaths/stdag.py",
-     "                    elif (minFlow[u][v] == demand[(u, v)] \n                        and demand[(u, v)] >= 1 ", "                    elif (minFlow[u][v] == demand[(u, v)] \n                        and demand[(u, v)] >= 2 ", ["C17"]),
+     "                        and demand[(u, v)] > 0 ", "                        and demand[(u, v)] > 1 ", ["C17"]),
     ("c06_multiplicity_plus_one", "flowpaths/stdigraph.py",
      "sequence_function[condensation_expanded_edge][:edge_multiplicity]", "sequence_function[condensation_expanded_edge][:edge_multiplicity + 1]", ["C06"]),
     ("c06_no_gap_protection", "flowpaths/abstractwalkmodeldigraph.py",
@@ -34,7 +34,7 @@ MUTANTS = [
     ("c06_bridges_skip_restore", "flowpaths/utils/safetypathcovers.py",
      "        adj_dict[u].append(v)  #reinsert removed edges\n\n    return bridges", "        if i % 3 != 2:\n            adj_dict[u].append(v)\n\n    return bridges", ["C06"]),
     ("c06_flow_excess_sign", "flowpaths/utils/safetyflowdecomp.py",
-     "                if inexact_excess + rightdiff <= 0:", "                if inexact_excess + rightdiff < 0:", ["C06"]),
+     "                if inexact_excess + rightdiff <= tolerance:", "                if inexact_excess + rightdiff < -tolerance:", ["C06"]),
     ("c06_protect_or_to_and", "flowpaths/abstractwalkmodeldigraph.py",
      "                if (u in self.G.nodes_reachable(last_node)) or (v in self.G.nodes_reaching(first_node)):", "                if (u in self.G.nodes_reachable(last_node)) and (v in self.G.nodes_reaching(first_node)):", ["C06"]),
     ("c20_int_weight", "flowpaths/utils/graphutils.py",
@@ -63,7 +63,7 @@ MUTANTS = [
     ("c18_no_deepcopy_constraints", "flowpaths/abstractpathmodeldag.py",
      "        self.subpath_constraints = copy.deepcopy(subpath_constraints)", "        self.subpath_constraints = subpath_constraints", ["C18"]),
     ("c19_accept_coverage_zero", "flowpaths/abstractpathmodeldag.py",
-     "            if self.subpath_constraints_coverage <= 0 or self.subpath_constraints_coverage > 1:", "            if self.subpath_constraints_coverage < 0 or self.subpath_constraints_coverage > 1:", ["C19"]),
+     "        if not (0 < self.subpath_constraints_coverage <= 1):", "        if not (0 <= self.subpath_constraints_coverage <= 1):", ["C19"]),
     ("c10_walk_coverage_minus_one", "flowpaths/abstractwalkmodeldigraph.py",
      "                    >= constraint_length * coverage_fraction\n", "                    >= (constraint_length * coverage_fraction - (1 if constraint_length > 2 else 0))\n", ["C10"]),
     ("c16_skip_conservation_high_indegree", "flowpaths/minerrorflow.py",
@@ -166,6 +166,17 @@ REVERTS = [
     ("a failed re-solve of a search over k", ["C13"]),
     ("differs from the previous HiGHS run of the process", ["C18"]),
     ("MinFlowDecompCycles(use_min_gen_set_lowerbound) on float flows below 1", ["C05"]),
+    ("MinErrorFlow on a cyclic graph with small numpy-integer weights", ["C16"]),
+    ("an error_scaling factor NaN must be rejected", ["C19"]),
+    ("the error_scaling dict and the solution_weights_superset list are read again after solve()", ["C18"]),
+    ("walk reconstruction looked the solver's edge values up under str(node)", ["C14"]),
+    ("an empty tuple / set as additional_starts or additional_ends", ["C01"]),
+    ("re-used the lower bounds (and helper models) computed for the graph as it was at the first solve", ["C18"]),
+    ("solution_weights_superset entries must be weights of the requested type", ["C19"]),
+    ("subpath_constraints_coverage_length outside (0, 1] must be rejected also when the caller passes no constraints", ["C19"]),
+    ("accepted an edge tuple as additional start / end node", ["C19"]),
+    ("MinErrorFlow must reject NaN / infinite weights", ["C19"]),
+    ("read_graphs stored no n / m / w for a block without edge lines", ["C20"]),
 ]
 
 
